@@ -116,9 +116,12 @@ func ParseHeaderDirective(header http.Header) *HeaderDirectives {
 				slog.Debug("Error parsing Cache-Control header", "error", err, "value", value)
 			}
 		case "Expires":
-			if t, err := time.Parse(http.TimeFormat, value); err == nil {
+			// http.ParseTime accepts all three HTTP-date formats (RFC 9110 section 5.6.7).
+			if t, err := http.ParseTime(value); err == nil {
 				hd.Expires.value = typeutils.Some(t)
 			} else {
+				// An invalid date, in particular "0", means "already expired" (RFC 9111 section 5.3).
+				hd.Expires.value = typeutils.Some(time.Time{})
 				slog.Debug("Error parsing Expires header", "error", err, "value", value)
 			}
 		}
